@@ -170,7 +170,7 @@ Proof. exact line_integral. Qed.
 (* the classes whose marginal cost is continuous everywhere: Device, PVDevice, CDevice, CDevice2 (one range), IDevice
    (natural exponents), IDevice2, GDevice - for ANY two flows of the right length (in bounds or not), any price.
    SDevice: below, at every flow off the charge/discharge kink and along every segment that does not cross it.
-   TDevice: likewise below.  PARTIAL for multi-range CDevice2 / ADevice: for those only the coordinate form above is proved (the general theorem
+   TDevice: likewise below.  CDevice2 with several ranges: total derivative below.  PARTIAL for ADevice: only the coordinate form is proved (the general theorem
    applies once continuity of their marginal cost is shown, which is not done here). *)
 Theorem C01_total_derivative_smooth_classes : forall n b cb k (p x : list R), length p = n -> length x = n -> smooth_kind k cb n ->
   dir_at (fun s => leaf_cost (Build_leafdev n b cb k) s p) (leaf_deriv (Build_leafdev n b cb k) x p) x.
@@ -228,3 +228,15 @@ Proof. exact tdevice_line_integral. Qed.
 Theorem C01_source_gdevice_deriv : forall n g (s p : list R), length s = n -> length p = n ->
   GDevice_deriv (A:=R) n g s p = gdev_deriv g s p.
 Proof. exact gen_gdevice_deriv. Qed.
+
+(* ---- sums over contiguous slot ranges: if every summand has a total derivative on its own range, so has the sum, and it is the
+   concatenation of the per-range gradients; hence CDevice2 with ANY number of contiguous cumulative ranges. Proofs/RangedTotal.v ---- *)
+From DK.Proofs Require Import RangedTotal.
+Theorem C01_ranged_sum_total_derivative : forall (T : Type) (st en : T -> nat) (F : T -> list R -> R) (G : T -> list R) (x : list R) rs,
+  chain st en 0 rs (length x) ->
+  (forall r, In r rs -> length (G r) = (en r - st r)%nat /\ dir_at (F r) (G r) (slice (st r) (en r) x)) ->
+  dir_at (ranged_sum st en F rs) (flat_map G rs) x.
+Proof. exact @ranged_dir. Qed.
+Theorem C01_cdevice2_total_derivative_any_ranges : forall n b cbs pl ph (x p : list R), length x = n -> length p = n -> cb_chain cbs n ->
+  dir_at (fun s => leaf_cost (Build_leafdev n b cbs (KC2 pl ph)) s p) (leaf_deriv (Build_leafdev n b cbs (KC2 pl ph)) x p) x.
+Proof. exact cdevice2_multi_total. Qed.
